@@ -205,6 +205,47 @@ def enumerate_lattice(ctx, rec):
     return fails
 
 
+REDUCED = {
+    "ver": [0, 1, 2], "fn": [-1, 0, H - 1, H], "tn": [-1, 0, 7, 8], "pwr": [-1, 0, 255, 256],
+    "rssi": [-121, -120, -47, -46], "toa256": [-32769, -32768, 32767, 32768], "ci": [-1281, -1280, 1280, 1281],
+    "tsc": [None, -1, 0, 7, 8], "tsc_set": [None, -1, 0, 1, 2, 3, 4], "mod": [None] + sorted(MODS), "nope": [False, True],
+    "burst_len": [None, 148, 296, 444, 592, 740, 149],
+}
+
+
+def enumerate_triples(ctx, rec):
+    """every TRIPLE of fields at the bounds themselves (reduced candidate set) on every baseline: three-way interactions
+    such as version x modulation x TSC set, or NOPE x burst x C/I"""
+    fails, sigs = [], set()
+    n = n_valid = 0
+    for b in baselines():
+        fields = TX_FIELDS if b["cls"] == "tx" else RX_FIELDS
+        for f1, f2, f3 in itertools.combinations(fields, 3):
+            for v1 in REDUCED[f1]:
+                for v2 in REDUCED[f2]:
+                    for v3 in REDUCED[f3]:
+                        m = dict(b)
+                        m[f1], m[f2], m[f3] = v1, v2, v3
+                        try:
+                            n_valid += 1 if oracle(m) else 0
+                            n += 1
+                        except Violation as v:
+                            if v.sig not in sigs:
+                                sigs.add(v.sig)
+                                fails.append(Failure("lattice_triples", m, v.sig, v.msg))
+                        except Exception as e:
+                            sig = repo_frame_sig(e)
+                            if sig is None:
+                                raise
+                            sig = "c13:unexpected-exception:" + sig
+                            if sig not in sigs:
+                                sigs.add(sig)
+                                fails.append(Failure("lattice_triples", m, sig, "%r for %r" % (e, m)))
+    rec.bulk(n, n, {"triples": n, "triples-valid": n_valid}, [dict(baselines()[8], mod="GMSK_AB", tsc_set=2, ver=1)])
+    rec.exhaustive = True
+    return fails
+
+
 def field_st(f):
     c = CAND[f]
     if f in ("mod", "nope"):
@@ -240,6 +281,8 @@ def hyp_oracle(m):
 
 SUBS = [
     Sub("lattice", fn=enumerate_lattice),
+    Sub("lattice_triples", fn=enumerate_triples),
     Sub("random_combinations", strategy=rand_msg(), oracle=hyp_oracle, examples={"quick": 3000, "thorough": 100000}),
 ]
 SUBS[0].replay = hyp_oracle
+SUBS[1].replay = hyp_oracle
